@@ -155,7 +155,7 @@ func (fst *FSTree) Delete(key string) error {
 
 	// remove entry
 	err = os.Remove(dstPath)
-	if err != nil {
+	if err != nil && !errors.Is(err, fs.ErrNotExist) {
 		return fmt.Errorf("fstree: could not delete %s: %w", dstPath, err)
 	}
 
